@@ -36,6 +36,14 @@ def parse(text, func, this_name="this", ctx=None):
 def _state(role_getter, role, o):
     ctx = _CTX.get("ctx")
     if ctx is not None:
+        if role_getter == "capacity" and ctx.db is not None:
+            # adaptors without capacity() (static_set): max_size() forwards to the storage
+            try:
+                rec_q = ctx.record_of(o)[0]
+            except Exception:
+                rec_q = None
+            if rec_q and not ctx.db.methods(rec_q, "capacity") and ctx.db.methods(rec_q, "max_size"):
+                role_getter = "max_size"
         r = T.getter(o, role_getter, ctx)
         if r is not None:
             return r
